@@ -14,11 +14,13 @@ THEOREMS = [
     "C11.merge_per_inner_order_tagged",
     "C11.merge_exact_multiset",
     "C11.merge_completes_iff",
-    "C11.merge_completes_maxc_partial",
+    "C11.merge_completes_iff_maxc",
+    "C11.merge_completes_maxc_state",
     "C11.merge_first_error",
     "C11.merge_maxc_bound",
     "C11.merge_queue_fifo",
     "C11.concat_map_ordered",
+    "C11.concat_map_blocks",
 ]
 RULE = ("outer timeline (cold or hot, completing / erroring / never completing) of 0..4 inner sources (cold, hot, 'rude' hot, or "
         "notifying synchronously inside subscribe, or rx.timer-based inners WITHOUT their own scheduler, which run on the scheduler handed "
@@ -39,11 +41,11 @@ LEVEL_TEXT = ("Lean theorems (arbitrary event lists = all interleavings, no boun
 LEVEL_NOTE = ("Model = RxModel/Comb.lean + RxModel/CombHO.lean (merge_all_: group composite with the len(group)==1 test as `group`; merge_(max_concurrent): "
 "active_count, queue, is_stopped). flat_map/flat_map_indexed/concat_map/rx.merge are these machines behind map / from_iterable (the mapper's result is the "
 "outer element; a raising mapper is an outer error). Full: merge_per_inner_order (+_maxc, +_tagged), merge_exact_multiset, merge_first_error, merge_maxc_bound, "
-"merge_queue_fifo, merge_completes_iff (merge_all: iff, as a fold over the delivered notifications), concat_map_ordered (stated as: the only live inner is the "
-"most recently subscribed one; with fifo + per-inner order this is the ordered concatenation - the explicit block decomposition of the output is not derived in Lean). "
-"PARTIAL: merge_completes_maxc_partial - for merge(max_concurrent)/concat_map only the direction 'completed => outer stopped, active_count 0, no live inner, queue "
-"empty' is proved (missing: the converse and a formulation on delivered notifications; needs a no-duplicate-arrival hypothesis because the model names inner "
-"subscriptions by id). Inners that notify inside subscribe are compared on outputs and effect order except the position of their own unsubscribe (time only). "
+"merge_queue_fifo, merge_completes_iff (merge_all: iff, as a fold over the delivered notifications), merge_completes_iff_maxc (merge(max_concurrent >= 1)/concat_map: "
+"full iff as a counting rule over the delivered notifications - outer completed and #delivered inner completions = #arrivals; no no-duplicate hypothesis needed; "
+"merge_completes_maxc_state is its state-level reading), concat_map_ordered (the only live inner is the most recently subscribed one) and concat_map_blocks (the explicit "
+"block decomposition of the output). Nothing is partial. Inners that notify inside subscribe are compared on outputs and effect order except the position of their own "
+"unsubscribe (time only). Oracle-only: second-subscriber cases. "
 "Threads are C43.")
 
 OPS = ["merge_all", "merge", "merge", "flat_map", "flat_map_indexed", "concat_map", "rx_merge", "merge"]
